@@ -184,6 +184,8 @@ class Options:
         self.validate_paths = 2 if tier == "quick" else 4
         self.box = (-4, 4)
         self.profile = True
+        self.ties = False                       # explore two-way ties (C01/C02: valid subgradient at kinks)
+        self.max_ties = 12 if tier == "quick" else 64
 
 
 # --------------------------------------------------------------------------------------------- symbolic run
@@ -213,10 +215,11 @@ def _profile_collect(store):
     return prof
 
 
-def run_symbolic(case, model, rng, profile=False):
+def run_symbolic(case, model, rng, profile=False, allow_ties=False):
     pr = PathResult()
     CTX.begin_run()
     CTX.set_model(model)
+    CTX.allow_ties = allow_ties
     ar.install()
     env = Env("sym", point=model, rng=rng)
     CTX.sampler = env.sampler
@@ -239,6 +242,7 @@ def run_symbolic(case, model, rng, profile=False):
         if profile:
             sys.setprofile(None)
         ar.uninstall()
+        CTX.allow_ties = False
     pr.funcs = funcs
     pr.model = dict(CTX.model)
     pr.pc = [(d, rel) for d, rel in CTX.pc if rel != "tie"]
@@ -529,6 +533,7 @@ def decide_case(case, opts):
     funcs = set()
     uses_rng = any(vi.kind == "rng" for vi in CTX.vars.values())
     nvalid = 0
+    path_goals = {}
     for pi, pr in enumerate(paths):
         if pr.funcs:
             funcs |= pr.funcs
@@ -580,6 +585,7 @@ def decide_case(case, opts):
             res["inconclusive"].append("goal construction: %r" % (e,))
             continue
         res["goals"] += len(goals)
+        path_goals[pi] = goals
         if res["sample"] is None:
             res["sample"] = {"sig": case.sig, "path_condition": ["N%d %s 0" % (d.id, r) for d, r in pr.pc][:6],
                              "goal_pairs": len(goals), "vars": len(CTX.vars)}
@@ -642,6 +648,11 @@ def decide_case(case, opts):
             res["violations"].append(cand)
         else:
             res["inconclusive"].append("counterexample not reproduced on the plain code: %s (%s)" % (cand["detail"], rep[1]))
+    if opts.ties and not res["violations"] and complete and path_goals:
+        try:
+            explore_ties(case, paths, path_goals, opts, rng, res, uses_rng)
+        except Unsupported as e:
+            res["inconclusive"].append("tie exploration: %r" % (e,))
     if res["violations"]:
         res["status"] = "violation"
     elif res["inconclusive"] and res["status"] == "ok":
@@ -656,7 +667,210 @@ def decide_case(case, opts):
     return res
 
 
+# --------------------------------------------------------------------------------------------- ties / kinks
+def _num_grad_of(d, model):
+    """direction in input space that increases d (numeric gradient of the comparison term)"""
+    vs = sorted(sc.node_vars(d))
+    g = {}
+    for v in vs:
+        h = 1e-6
+        m1 = dict(model)
+        m2 = dict(model)
+        m1[v] = model[v] + h
+        m2[v] = model[v] - h
+        g[v] = (sc.evalf(d, m1, {}) - sc.evalf(d, m2, {})) / (2 * h)
+    return g
+
+
+def _path_at(paths, point):
+    memo = {}
+    for i, pr in enumerate(paths):
+        if pr.outcome is None or pr.error:
+            continue
+        if all(_holds(d, rel, point, memo) for d, rel in pr.pc):
+            return i
+    return None
+
+
+def _hull_residual(G, E1, E2):
+    """min over lambda in [0,1] of |G - (lambda E1 + (1-lambda) E2)|_inf, and the minimiser"""
+    a = np.array(E1, dtype=float) - np.array(E2, dtype=float)
+    b = np.array(G, dtype=float) - np.array(E2, dtype=float)
+    den = float(a @ a)
+    lam = float(a @ b) / den if den > 0 else 0.0
+    lam = min(1.0, max(0.0, lam))
+    r = b - lam * a
+    return float(np.max(np.abs(r))) if r.size else 0.0, lam
+
+
+def explore_ties(case, paths, path_goals, opts, rng, res, uses_rng):
+    """two-way ties (codimension-1 kinks): at a point where exactly one order comparison is tied, the gradient the
+    code leaves must be a valid subgradient - an element of the segment between the gradients of the two smooth
+    pieces that meet there.  Discharged when z3 proves, on the whole tie set, that the code's gradient equals one
+    of the two pieces or their midpoint; otherwise the tie point is replayed on the plain code (numeric hull test)."""
+    cands = []
+    seen_c = set()
+    for pi, pr in enumerate(paths):
+        if pi not in path_goals:
+            continue
+        for k, (d, rel) in enumerate(pr.pc):
+            if rel not in (">", "<"):
+                continue
+            key = (d.id, frozenset((x.id, r) for j, (x, r) in enumerate(pr.pc) if j != k))
+            if key in seen_c:
+                continue
+            seen_c.add(key)
+            cands.append((pi, k))
+    rng.shuffle(cands)
+    done_sigs = set()
+    nrun = 0
+    for pi, k in cands:
+        if nrun >= opts.max_ties:
+            break
+        pr = paths[pi]
+        d, rel = pr.pc[k]
+        # '!=' literals on data values only exclude measure-zero sets (and may be the very tie in another guise)
+        tie_pc = [(x, r) for j, (x, r) in enumerate(pr.pc) if j != k and not (r == "!=" and not _all_hyper(x))] + [(d, "==")]
+        # a generic point of the tie set: everything the tied comparison does not mention keeps the (random) value it
+        # had on the strict path, the tied operands stay close to theirs
+        dvars = sc.node_vars(d)
+        pins = []
+        for name, val in pr.model.items():
+            if name not in CTX.vars:
+                continue
+            vn = CTX.vars[name].node
+            if name in dvars:
+                pins.append((sc.sub(vn, sc.const(round(val, 3) - 0.5)), ">"))
+                pins.append((sc.sub(vn, sc.const(round(val, 3) + 0.5)), "<"))
+            else:
+                pins.append((sc.sub(vn, sc.const(val)), "=="))
+        st, pt, _ = lw.find_model(tie_pc + pins, timeout_ms=min(opts.timeout_ms, 5000))
+        if st != "sat":
+            st, pt, _ = lw.find_model(tie_pc, timeout_ms=min(opts.timeout_ms, 5000))
+        if st != "sat":
+            continue
+        model = dict(pr.model)
+        model.update(pt)
+        if sc.evalf(d, model, {}) != 0.0:
+            continue            # the tie is not exactly realisable in floating point at the solver's point
+        tr, _ = run_symbolic(case, model, rng, allow_ties=True)
+        nrun += 1
+        if tr.error or tr.outcome is None or tr.outcome.vjp is None or tr.outcome.rejected is not None:
+            continue
+        eqs = [x for x, r in tr.pc if r == "==" and not _all_hyper(x) and x.id != d.id]
+        multi = False
+        for e in eqs:           # further equalities are fine when they are the same tie in another guise
+            st2, _, _ = lw.find_model([(d, "=="), (e, "!=")], timeout_ms=2000)
+            if st2 != "unsat":
+                multi = True
+                break
+        if multi:
+            continue            # more than one simultaneous tie: outside the bound
+        sig = frozenset((x.id, r) for x, r in tr.pc)
+        if sig in done_sigs:
+            continue
+        done_sigs.add(sig)
+        direction = _num_grad_of(d, model)
+        norm = math.sqrt(sum(v * v for v in direction.values())) or 1.0
+        plus = dict(model)
+        minus = dict(model)
+        for v, c in direction.items():
+            plus[v] = model[v] + 1e-4 * c / norm
+            minus[v] = model[v] - 1e-4 * c / norm
+        ia, ib = _path_at(paths, plus), _path_at(paths, minus)
+        if ia is None or ib is None or ia not in path_goals or ib not in path_goals:
+            continue
+        tgoals, tfacts = _goal_pairs(tr.outcome, None)
+        ea = {(l, i): e for l, i, o, e in path_goals[ia] if e is not None and l.startswith("grad(")}
+        eb = {(l, i): e for l, i, o, e in path_goals[ib] if e is not None and l.startswith("grad(")}
+        obs = [(l, i, o) for l, i, o, e in tgoals if e is not None and l.startswith("grad(") and (l, i) in ea and (l, i) in eb]
+        if not obs:
+            continue
+        res["obligations"] += 1
+        res.setdefault("tie_paths", 0)
+        res["tie_paths"] += 1
+        assumptions = tr.pc + tr.axioms
+        half = sc.const(0.5)
+        alts = [
+            [(o, ea[(l, i)]) for l, i, o in obs],
+            [(o, eb[(l, i)]) for l, i, o in obs],
+            [(o, sc.mul(half, sc.add(ea[(l, i)], eb[(l, i)]))) for l, i, o in obs],
+        ]
+        ok = False
+        for pairs in alts:
+            v = lw.decide(pairs, assumptions, timeout_ms=opts.timeout_ms, twin=False)
+            if v.status == "unsat":
+                ok = True
+                break
+        if ok:
+            res["discharged"] += 1
+            continue
+        # not one of the canonical choices: numeric hull test at the tie point, then replay on the plain code
+        memo = {}
+        G = [sc.evalf(o, model, memo) for l, i, o in obs]
+        E1 = [sc.evalf(ea[(l, i)], model, memo) for l, i, o in obs]
+        E2 = [sc.evalf(eb[(l, i)], model, memo) for l, i, o in obs]
+        r, lam = _hull_residual(G, E1, E2)
+        scale = max(1e-9, max(abs(x) for x in G + E1 + E2))
+        if r <= 1e-7 * scale:
+            res["inconclusive"].append("tie: the gradient is another valid subgradient (lambda=%.3f); not proved on the whole tie set" % lam)
+            continue
+        cand = {"label": "subgradient at a tie", "kind": "tie", "point": _clean(model),
+                "direction": {v: c / norm for v, c in direction.items()},
+                "detail": "at a tie of N%d the gradient is outside the segment between the gradients of the two adjacent "
+                          "smooth pieces (distance %.4g): code=%s piece+=%s piece-=%s" % (
+                              d.id, r, [round(x, 4) for x in G[:6]], [round(x, 4) for x in E1[:6]], [round(x, 4) for x in E2[:6]])}
+        rep = replay_tie(case, cand, uses_rng)
+        if rep[0]:
+            cand["replay"] = rep[1]
+            res["violations"].append(cand)
+            return
+        res["inconclusive"].append("tie candidate not reproduced on the plain code: " + rep[1])
+
+
+def replay_tie(case, cand, uses_rng=False):
+    """plain-code replay of a tie candidate: gradients of the two smooth pieces by central differences slightly to
+    either side of the tie, code gradient at the tie point itself; reproduced iff the latter is outside the segment."""
+    x0 = cand["point"]
+    dirn = cand["direction"]
+    base, err = run_plain(case, x0, "plain64", uses_rng)
+    if err or base is None or base.vjp is None:
+        return False, "plain run failed: %s" % err
+    G = []
+    labels = []
+    for label, data, grad, requires in base.vjp["inputs"]:
+        if requires and grad is not None:
+            g, _ = flat_floats(grad)
+            G += g
+            labels += ["grad(%s)[%d]" % (label, i) for i in range(len(g))]
+    sides = []
+    for sgn in (+1, -1):
+        pt = dict(x0)
+        for v, c in dirn.items():
+            pt[v] = x0[v] + sgn * 1e-3 * c
+        b2, fd, e = fd_gradients(case, pt, uses_rng, 1e-6)
+        if e or fd is None:
+            return False, "finite differences failed: %s" % e
+        E_ = []
+        for label, data, grad, requires in base.vjp["inputs"]:
+            if requires and grad is not None:
+                E_ += list(fd.get(label, []))
+        sides.append(E_)
+    if len(sides[0]) != len(G) or len(sides[1]) != len(G):
+        return False, "shape mismatch in replay"
+    r, lam = _hull_residual(G, sides[0], sides[1])
+    scale = max(1e-9, max(abs(x) for x in G + sides[0] + sides[1]))
+    if r > 2e-3 * scale:
+        worst = int(np.argmax(np.abs(np.array(G) - (lam * np.array(sides[0]) + (1 - lam) * np.array(sides[1])))))
+        return True, ("at the tie point the code's gradient is not a convex combination of the two one-sided gradients "
+                      "(best lambda=%.3f, distance %.4g): %s code=%.6g one-sided=%.6g / %.6g" % (
+                          lam, r, labels[worst], G[worst], sides[0][worst], sides[1][worst]))
+    return False, "code gradient lies on the segment between the one-sided gradients (lambda=%.3f)" % lam
+
+
 def _replay(case, cand, uses_rng):
+    if cand.get("kind") == "tie":
+        return replay_tie(case, cand, uses_rng)
     rp = getattr(case, "replay", None)
     if rp is not None:
         return rp(cand)
